@@ -147,7 +147,7 @@ END_HEX_STRING = re.compile(rb"[^\x00\t\n\f\r 0-9a-fA-F]")
 HEX_PAIR = re.compile(rb"[0-9a-fA-F]{2}|.")
 END_NUMBER = re.compile(rb"[^0-9]")
 END_KEYWORD = re.compile(rb"[#/%\[\]()<>{}\x00\t\n\f\r ]")
-END_STRING = re.compile(rb"[()\134]")
+END_STRING = re.compile(rb"[()\r\134]")
 OCT_STRING = re.compile(rb"[0-7]")
 ESC_STRING = {
     b"b": 8,
@@ -425,6 +425,13 @@ class PSBaseParser:
         if c == b"\\":
             self.oct = b""
             self._parse1 = self._parse_string_1
+            return j + 1
+        if c == b"\r":
+            # PDF 32000-1 7.3.4.2: an end-of-line marker without a preceding
+            # backslash is read as \n, whether it is CR, LF or CR LF
+            # (_parse_string_2 skips the LF of a CR LF pair).
+            self._curtoken += b"\n"
+            self._parse1 = self._parse_string_2
             return j + 1
         if c == b"(":
             self.paren += 1
